@@ -7,9 +7,11 @@ import (
 	"fmt"
 	"math/rand/v2"
 	"os"
+	"strings"
 
 	"github.com/gopacket/gopacket"
 
+	"github.com/scionproto/scion/pkg/addr"
 	"github.com/scionproto/scion/pkg/slayers"
 	"github.com/scionproto/scion/pkg/slayers/path/empty"
 
@@ -405,25 +407,425 @@ func c20Gen(rng *rand.Rand, idx int, kind int, plen int) *c20Case {
 	return c
 }
 
+// ---- history independence: long-lived layers, one receive buffer ----
+//
+// snet and router responders keep their slayers.SCION layer (and the UDP/SCMP
+// layers) alive, decode every received packet into it from a receive buffer
+// that is reused as well (so RawDstAddr/RawSrcAddr alias that buffer and their
+// bytes change in place with the next packet), swap source and destination and
+// serialize the reply through the same layer. The checksum written then must
+// be the one of the pseudo header that is on the wire now, whatever the layer
+// was used for before. c20Reuse plays that with the cases the check generates:
+//
+//  (a) one receive buffer: the case's packet is copied into it, decoded, the
+//      addresses swapped, UDP and SCMP serialized; then the packet of another
+//      host of the same AS pair (same lengths) takes its place and is decoded;
+//      then one address bit is flipped in the buffer without decoding again;
+//      then one ISD-AS bit is changed in the layer; finally the first packet is
+//      received once more (the reply must be byte-identical to the first one);
+//  (b) a layer that is never decoded: the application installs the addresses
+//      (in place if the lengths allow), serializes, rewrites host bytes and an
+//      ISD-AS in place and serializes again.
+//
+// After every step the reference sum over the pseudo header read from the
+// serialized packet itself and the upper layer must fold to 0xFFFF, and after a
+// single-bit change the checksum field must differ from the previous one.
+
+type c20ReuseWit struct {
+	Dir      string  `json:"direction"` // always "reuse"
+	Scenario string  `json:"scenario"`
+	L4       string  `json:"upper_layer"`
+	Case     c20Wit  `json:"case"`
+	Prev     *c20Wit `json:"previous_case_in_buffer,omitempty"`
+	Step     string  `json:"step,omitempty"`
+	Out      string  `json:"serialized_hex,omitempty"`
+	RefFold  string  `json:"ref_fold,omitempty"`
+	Field    string  `json:"checksum_field,omitempty"`
+}
+
+type c20Reuse struct {
+	a    *acc
+	rng  *rand.Rand
+	rx   []byte        // the one receive buffer
+	n    int           // bytes of the packet in it
+	scn  slayers.SCION // long-lived, RecyclePaths, decoded from rx again and again
+	own  slayers.SCION // long-lived, never decoded: addresses written by the application
+	udp  slayers.UDP
+	scmp slayers.SCMP
+	sb   gopacket.SerializeBuffer
+	prev *c20Case
+	cur  *c20Case
+}
+
+func newC20Reuse(a *acc, rng *rand.Rand) *c20Reuse {
+	u := &c20Reuse{a: a, rng: rng, rx: make([]byte, 12+16+32+8+24+9000+64), sb: gopacket.NewSerializeBuffer()}
+	u.scn.RecyclePaths()
+	u.own.FlowID, u.own.PathType, u.own.Path = 0xabcde, empty.PathType, empty.Path{}
+	return u
+}
+
+// requestWire is the reference encoding of the case as a received packet
+// (empty path, checksum field zero: nothing here verifies it).
+func (c *c20Case) requestWire() []byte {
+	var l4 []byte
+	if c.Proto == protoUDP {
+		l4 = append(l4, c.Hdr[:4]...)
+		l4 = binary.BigEndian.AppendUint16(l4, uint16(8+len(c.Pld)))
+		l4 = append(l4, 0, 0)
+	} else {
+		l4 = append(l4, c.Typ, c.Code, 0, 0)
+		l4 = append(l4, c.Hdr...)
+	}
+	l4 = append(l4, c.Pld...)
+	cm := refCmn{Flow: 0xabcde, NextHdr: c.Proto, HdrLen: uint8((28 + len(c.Addr.Dst) + len(c.Addr.Src)) / 4), PayloadLen: uint16(len(l4))}
+	return append(refEncodeSCION(cm, &c.Addr, nil), l4...)
+}
+
+// c20WireFold reads the address header and the upper layer from a serialized
+// packet (no extension headers) and returns the reference sum over the pseudo
+// header that is on the wire and the upper layer, and the checksum field.
+func c20WireFold(out []byte) (fold, field uint16, ok bool) {
+	if len(out) < 12 {
+		return 0, 0, false
+	}
+	dl, sl := refAddrLen(out[9]>>4), refAddrLen(out[9]&0xF)
+	hdr := int(out[5]) * 4
+	if hdr < 28+dl+sl || hdr > len(out) {
+		return 0, 0, false
+	}
+	proto := out[4]
+	l4 := out[hdr:]
+	off := 2
+	if proto == protoUDP {
+		off = 6
+	}
+	if len(l4) < off+2 {
+		return 0, 0, false
+	}
+	ps := refPseudoHeader(binary.BigEndian.Uint64(out[12:]), binary.BigEndian.Uint64(out[20:]), out[28:28+dl], out[28+dl:28+dl+sl],
+		uint32(len(l4)), proto)
+	return refOnesSum(append(ps, l4...)), binary.BigEndian.Uint16(l4[off:]), true
+}
+
+func (u *c20Reuse) wit(scenario, l4, step string, out []byte, fold, field uint16) c20ReuseWit {
+	w := c20ReuseWit{Dir: "reuse", Scenario: scenario, L4: l4, Case: u.cur.wit("", nil, 0), Step: step,
+		RefFold: fmt.Sprintf("%#04x", fold), Field: fmt.Sprintf("%#04x", field)}
+	if len(w.Case.Pld) > 1024 {
+		w.Case.Pld = w.Case.Pld[:1024] + "…"
+	}
+	if u.prev != nil {
+		pw := u.prev.wit("", nil, 0)
+		pw.Pld = ""
+		w.Prev = &pw
+	}
+	if len(out) <= 512 {
+		w.Out = hexs(out)
+	}
+	return w
+}
+
+// emitOne serializes one upper layer through the long-lived layer l and judges
+// the checksum against the packet that came out. It returns the checksum field
+// and the serialized bytes (valid until the next call).
+func (u *c20Reuse) emitOne(scenario string, l *slayers.SCION, udp bool, pld []byte, step string) (field uint16, out []byte, ok bool) {
+	a, c := u.a, u.cur
+	name := "scmp"
+	var ls []gopacket.SerializableLayer
+	if udp {
+		name = "udp"
+		l.NextHdr = slayers.L4UDP
+		u.udp.SrcPort, u.udp.DstPort = uint16(30041), uint16(len(c.Pld))
+		if c.Proto == protoUDP { // the reply goes back to where the request came from
+			u.udp.SrcPort, u.udp.DstPort = binary.BigEndian.Uint16(c.Hdr[2:]), binary.BigEndian.Uint16(c.Hdr[0:])
+		}
+		u.udp.SetNetworkLayerForChecksum(l)
+		ls = []gopacket.SerializableLayer{l, &u.udp}
+	} else {
+		l.NextHdr = slayers.L4SCMP
+		typ, code, info := uint8(129), uint8(0), []byte{0x12, 0x34, 0, byte(len(c.Pld))}
+		if c.Proto == protoSCMP {
+			typ, code, info = c.Typ, c.Code, c.Hdr
+		}
+		ms := implSCMPLayers(l, typ, code, info)
+		u.scmp.TypeCode = slayers.CreateSCMPTypeCode(slayers.SCMPType(typ), slayers.SCMPCode(code))
+		u.scmp.SetNetworkLayerForChecksum(l)
+		ls = append([]gopacket.SerializableLayer{l, &u.scmp}, ms[1:]...)
+	}
+	ls = append(ls, gopacket.Payload(pld))
+	var err error
+	if p, stack := mon.Try(func() {
+		err = gopacket.SerializeLayers(u.sb, gopacket.SerializeOptions{FixLengths: true, ComputeChecksums: true}, ls...)
+	}); p != nil {
+		a.violation("C20:reuse:"+scenario, fmt.Sprintf("%s: panic at %s while serializing %s through the long-lived layer: %v\n%s",
+			step, mon.PanicSite(stack), name, p, stack), u.wit(scenario, name, step, nil, 0, 0))
+		return 0, nil, false
+	}
+	if err != nil {
+		a.violation("C20:reuse:"+scenario, fmt.Sprintf("%s: serializing %s through the long-lived layer failed: %v", step, name, err),
+			u.wit(scenario, name, step, nil, 0, 0))
+		return 0, nil, false
+	}
+	out = u.sb.Bytes()
+	a.evals++
+	a.event("reuse_serialize_" + name)
+	fold, field, ok := c20WireFold(out)
+	if !ok {
+		a.violation("C20:reuse:"+scenario, fmt.Sprintf("%s: the serialized packet (%d bytes) cannot be laid out", step, len(out)),
+			u.wit(scenario, name, step, out, 0, 0))
+		return 0, nil, false
+	}
+	if fold != 0xFFFF {
+		a.violation("C20:reuse:"+scenario, fmt.Sprintf(
+			"%s: the %s checksum %#04x written through the long-lived layer is not the one of the packet on the wire: pseudo header of that packet and its %d upper-layer bytes fold to %#04x, not 0xffff",
+			step, name, field, len(out)-int(out[5])*4, fold), u.wit(scenario, name, step, out, fold, field))
+		return field, out, false
+	}
+	a.event("reuse_verified")
+	return field, out, true
+}
+
+// emit serializes the upper layer of the case with its whole payload and the
+// other upper layer with the first bytes of it, through the same layer.
+func (u *c20Reuse) emit(scenario string, l *slayers.SCION, step string, full bool) (field uint16, out []byte, ok bool) {
+	c := u.cur
+	short := c.Pld[:min(len(c.Pld), 41)]
+	pld := c.Pld
+	if !full {
+		pld = short
+	}
+	if _, _, ok2 := u.emitOne(scenario, l, c.Proto != protoUDP, short, step+" (other upper layer first)"); !ok2 {
+		return 0, nil, false
+	}
+	return u.emitOne(scenario, l, c.Proto == protoUDP, pld, step)
+}
+
+// receive copies the packet of c into the receive buffer, decodes it into the
+// long-lived layer and turns the layer around for the reply.
+func (u *c20Reuse) receive(c *c20Case) bool {
+	w := c.requestWire()
+	u.n = copy(u.rx, w)
+	var err error
+	if p, _ := mon.Try(func() { err = u.scn.DecodeFromBytes(u.rx[:u.n], gopacket.NilDecodeFeedback) }); p != nil || err != nil {
+		u.a.incon["reuse-request-not-decoded"]++ // C18's business
+		return false
+	}
+	l := &u.scn
+	l.DstIA, l.SrcIA = l.SrcIA, l.DstIA
+	l.DstAddrType, l.SrcAddrType = l.SrcAddrType, l.DstAddrType
+	l.RawDstAddr, l.RawSrcAddr = l.RawSrcAddr, l.RawDstAddr
+	return true
+}
+
+func (u *c20Reuse) changed(scenario, what string, before, after uint16) {
+	u.a.evals++
+	if before == after {
+		u.a.violation("C20:reuse:"+scenario, fmt.Sprintf("%s, but the checksum written through the long-lived layer stays %#04x", what, after),
+			u.wit(scenario, "", what, nil, 0xFFFF, after))
+	}
+}
+
+func (u *c20Reuse) otherHost(b []byte) []byte {
+	o := make([]byte, len(b))
+	for i := range o {
+		o[i] = byte(u.rng.Uint32())
+	}
+	if string(o) == string(b) {
+		o[len(o)-1] ^= 1
+	}
+	return o
+}
+
+func (u *c20Reuse) run(c *c20Case) {
+	a := u.a
+	u.cur = c
+	defer func() { u.prev = c }()
+	// ---- (a) one receive buffer ----
+	if p := u.prev; p != nil {
+		if p.Addr.DstIA == c.Addr.DstIA && p.Addr.SrcIA == c.Addr.SrcIA {
+			a.class("reuse/same-buffer-same-as-pair")
+		} else {
+			a.class("reuse/same-buffer-other-as")
+		}
+		if len(p.Addr.Dst) != len(c.Addr.Dst) || len(p.Addr.Src) != len(c.Addr.Src) {
+			a.class("reuse/same-buffer-other-address-lengths")
+		} else {
+			a.class("reuse/same-buffer-same-address-lengths")
+		}
+	}
+	a.class("reuse/" + c.Kind)
+	if !u.receive(c) {
+		return
+	}
+	_, out, ok := u.emit("same-buffer-next-packet", &u.scn, "received into the reused buffer, addresses swapped", true)
+	if !ok {
+		return
+	}
+	first := append([]byte(nil), out...)
+
+	// another host of the same AS pair
+	c2 := c.clone()
+	switch u.rng.IntN(3) {
+	case 0:
+		c2.Addr.Dst = u.otherHost(c.Addr.Dst)
+	case 1:
+		c2.Addr.Src = u.otherHost(c.Addr.Src)
+	default:
+		c2.Addr.Dst, c2.Addr.Src = u.otherHost(c.Addr.Dst), u.otherHost(c.Addr.Src)
+	}
+	u.cur = c2
+	if !u.receive(c2) {
+		return
+	}
+	a.class("reuse/same-buffer-other-host")
+	f1, _, ok := u.emit("same-buffer-other-host", &u.scn, "next packet in the same buffer: same ISD-AS pair and address lengths, other host bytes", true)
+	if !ok {
+		return
+	}
+
+	// one address bit flipped in the buffer, no decode in between
+	al := len(c.Addr.Dst) + len(c.Addr.Src)
+	bit := u.rng.IntN(8 * al)
+	u.rx[28+bit/8] ^= 0x80 >> (bit % 8)
+	if bit/8 < len(c.Addr.Dst) { // keep the description of what is in the buffer in step
+		c2.Addr.Dst[bit/8] ^= 0x80 >> (bit % 8)
+	} else {
+		c2.Addr.Src[bit/8-len(c.Addr.Dst)] ^= 0x80 >> (bit % 8)
+	}
+	a.class("reuse/in-place-host-bit")
+	f2, _, ok := u.emit("in-place-host-bit", &u.scn, fmt.Sprintf("bit %d of the host addresses flipped in the receive buffer the layer aliases", bit), true)
+	if !ok {
+		return
+	}
+	u.changed("in-place-host-bit", fmt.Sprintf("bit %d of the host addresses was flipped in place", bit), f1, f2)
+
+	// one ISD-AS bit changed in the layer
+	k := u.rng.IntN(128)
+	if k < 64 {
+		u.scn.DstIA ^= 1 << k
+	} else {
+		u.scn.SrcIA ^= 1 << (k - 64)
+	}
+	a.class("reuse/in-place-ia-bit")
+	f3, _, ok := u.emit("in-place-ia-bit", &u.scn, fmt.Sprintf("bit %d of DstIA|SrcIA changed in the layer", k), true)
+	if !ok {
+		return
+	}
+	u.changed("in-place-ia-bit", fmt.Sprintf("bit %d of DstIA|SrcIA was changed", k), f2, f3)
+
+	// the first packet once more
+	u.cur = c
+	if !u.receive(c) {
+		return
+	}
+	a.class("reuse/same-packet-again")
+	_, out, ok = u.emit("same-packet-again", &u.scn, "the first packet received again", true)
+	if !ok {
+		return
+	}
+	a.evals++
+	if string(out) != string(first) {
+		a.violation("C20:reuse:same-packet-again", "the reply to the same packet, received again after other packets went through the layer, differs from the first reply",
+			u.wit("same-packet-again", "", "first reply: "+hexs(first[:min(len(first), 256)]), out, 0xFFFF, 0))
+	}
+
+	// ---- (b) a layer the application fills ----
+	o := &u.own
+	o.DstIA, o.SrcIA = addr.IA(c.Addr.DstIA), addr.IA(c.Addr.SrcIA)
+	o.DstAddrType, o.SrcAddrType = slayers.AddrType(c.Addr.DT), slayers.AddrType(c.Addr.ST)
+	if len(o.RawDstAddr) == len(c.Addr.Dst) && len(o.RawSrcAddr) == len(c.Addr.Src) {
+		copy(o.RawDstAddr, c.Addr.Dst)
+		copy(o.RawSrcAddr, c.Addr.Src)
+		a.class("reuse/own-layer/next-addresses-written-in-place")
+	} else {
+		o.RawDstAddr, o.RawSrcAddr = append([]byte(nil), c.Addr.Dst...), append([]byte(nil), c.Addr.Src...)
+		a.class("reuse/own-layer/address-slices-replaced")
+	}
+	g0, _, ok := u.emit("own-layer-next-addresses", o, "addresses of the next case installed in the long-lived layer", false)
+	if !ok {
+		return
+	}
+	bit = u.rng.IntN(8 * al)
+	if bit/8 < len(o.RawDstAddr) {
+		o.RawDstAddr[bit/8] ^= 0x80 >> (bit % 8)
+	} else {
+		o.RawSrcAddr[bit/8-len(o.RawDstAddr)] ^= 0x80 >> (bit % 8)
+	}
+	a.class("reuse/own-layer/host-bit-in-place")
+	g1, _, ok := u.emit("own-layer-host-bit-in-place", o, fmt.Sprintf("bit %d of RawDstAddr|RawSrcAddr flipped in place", bit), false)
+	if !ok {
+		return
+	}
+	u.changed("own-layer-host-bit-in-place", fmt.Sprintf("bit %d of RawDstAddr|RawSrcAddr was flipped in place", bit), g0, g1)
+	copy(o.RawSrcAddr, u.otherHost(o.RawSrcAddr))
+	copy(o.RawDstAddr, u.otherHost(o.RawDstAddr))
+	a.class("reuse/own-layer/hosts-rewritten-in-place")
+	if _, _, ok = u.emit("own-layer-hosts-rewritten-in-place", o, "both host addresses overwritten in place", false); !ok {
+		return
+	}
+	k = u.rng.IntN(128)
+	if k < 64 {
+		o.DstIA ^= 1 << k
+	} else {
+		o.SrcIA ^= 1 << (k - 64)
+	}
+	a.class("reuse/own-layer/ia-bit")
+	u.emit("own-layer-ia-bit", o, fmt.Sprintf("bit %d of DstIA|SrcIA changed", k), false)
+}
+
 func checkC20(r *mon.Run) {
 	r.Rule = "case = address header (all 256 DT/DL x ST/SL combinations, then random; random/all-zero/all-one ISD-AS and host values) " +
 		"x upper layer (UDP, the nine SCMP message types, an unassigned SCMP type) x payload length (every length 0..64, then " +
 		"boundary and PRNG-chosen lengths of both parities up to 9000) x with/without E2E extension; serialized by slayers with " +
 		"ComputeChecksums; oracle = RFC 1071 sum over the documented pseudo header and the wire bytes; every single-bit change " +
 		"of a covered input (all bits for upper layers <= 256 bytes, sampled beyond) re-serialized and re-judged; " +
-		"class = upper layer x length bucket x parity x extension, address lengths, address types"
+		"class = upper layer x length bucket x parity x extension, address lengths, address types. Reuse monitor: the same cases in " +
+		"generation order, 64 per stream, through one long-lived slayers.SCION (RecyclePaths) decoded again and again from one receive buffer " +
+		"(next case; other host of the same AS pair; address bit flipped in the buffer; ISD-AS bit changed; first packet again), addresses " +
+		"swapped for the reply, and one long-lived layer whose addresses the application rewrites in place, with long-lived UDP and SCMP " +
+		"layers; after every step both upper layers are serialized and the reference sum over the pseudo header read from the serialized " +
+		"packet must be 0xFFFF, single-bit changes must change the checksum; reuse/<scenario>"
 	r.Assumptions = []string{
 		"the pseudo header is the one of scion-header.rst: DstIA, SrcIA, DstHost, SrcHost, 32-bit upper-layer length, 24 zero bits, protocol number of the upper layer (not NextHdr)",
 		"the upper-layer length is the number of upper-layer bytes on the wire (for UDP this equals the Length field written with FixLengths)",
 		"payload lengths are limited to 9000 as in the property's quantifier",
+		"reuse monitor: requests carry an empty path and no extension header; the second upper layer of every step is serialized with at most 41 payload bytes, the steps on the application-filled layer as well",
 	}
 	if f := r.ReplayFile(); f != "" {
 		b, err := os.ReadFile(f)
 		var rec struct {
 			Witness c20Wit `json:"witness"`
 		}
+		var rrec struct {
+			Witness c20ReuseWit `json:"witness"`
+		}
 		if err == nil {
 			err = json.Unmarshal(b, &rec)
+		}
+		if err == nil && json.Unmarshal(b, &rrec) == nil && rrec.Witness.Dir == "reuse" {
+			// the previous case and the case through a new set of long-lived layers
+			// (host bytes and bit positions of the in-place steps are drawn anew)
+			a := newAcc()
+			u := newC20Reuse(a, r.Rand("replay"))
+			var c *c20Case
+			if pw := rrec.Witness.Prev; pw != nil {
+				if c, err = pw.toCase(); err == nil {
+					u.run(c)
+				}
+			}
+			if err == nil {
+				if c, err = rrec.Witness.Case.toCase(); err == nil && !strings.HasSuffix(rrec.Witness.Case.Pld, "…") {
+					u.run(c)
+				}
+			}
+			if err != nil {
+				fmt.Println("C20: cannot load replay file:", err)
+				os.Exit(2)
+			}
+			a.sample(rrec.Witness)
+			a.class("replay")
+			a.class("replay/reuse")
+			a.flush(r)
+			return
 		}
 		var c *c20Case
 		if err == nil {
@@ -501,11 +903,25 @@ func checkC20(r *mon.Run) {
 			}
 		}
 	})
+	// ---- the same cases, in the generated order, through long-lived layers ----
+	const rchunk = 64
+	runTasks(r, (len(cases)+rchunk-1)/rchunk, func(t int, a *acc) {
+		u := newC20Reuse(a, r.Rand(fmt.Sprintf("c20/reuse/%d", t)))
+		for i := t * rchunk; i < (t+1)*rchunk && i < len(cases); i++ {
+			u.run(cases[i])
+		}
+	})
 	r.Extra("cases", len(cases))
 	need := []string{"odd_length", "even_length", "wire_flip", "flip_dst-ia", "flip_src-ia", "flip_dst-host", "flip_src-host",
-		"flip_l4-field", "flip_payload", "flip_length", "flip_scmp-code", "checksum_udp", "checksum_scmp-other-type"}
+		"flip_l4-field", "flip_payload", "flip_length", "flip_scmp-code", "checksum_udp", "checksum_scmp-other-type",
+		"reuse_serialize_udp", "reuse_serialize_scmp", "reuse_verified"}
 	for _, t := range scmpTypes {
 		need = append(need, "checksum_scmp-"+scmpNames[t])
 	}
 	r.Require(int64(len(cases)), 60, need...)
+	r.RequireClasses("reuse/same-buffer-other-host", "reuse/same-buffer-other-as", "reuse/same-buffer-other-address-lengths",
+		"reuse/same-buffer-same-address-lengths", "reuse/in-place-host-bit", "reuse/in-place-ia-bit", "reuse/same-packet-again",
+		"reuse/own-layer/next-addresses-written-in-place", "reuse/own-layer/address-slices-replaced",
+		"reuse/own-layer/host-bit-in-place", "reuse/own-layer/hosts-rewritten-in-place", "reuse/own-layer/ia-bit",
+		"reuse/udp", "reuse/scmp-echo-request", "reuse/scmp-other-type")
 }
